@@ -35,7 +35,7 @@ pub const OPS: [&str; 19] = [
 
 fn tree(r: &mut Rng, budget: usize, names: &[String]) -> SItem {
     let o = ItemOpts { vals: Vals::Small, instrs: true, names: true, vectors: true, floats: true, max_children: 4 };
-    let t = gen::item_budget(r, budget, 4, &o, names);
+    let t = gen::item_budget(r, budget, if budget > 16 { 8 } else { 4 }, &o, names);
     // force a list most of the time (atoms are covered, but lists are where the structure is)
     if !t.is_list() && r.chance(3, 4) {
         SItem::List(vec![t, gen::item_budget(r, budget / 2 + 1, 3, &o, names)])
@@ -164,16 +164,36 @@ pub fn run(ctx: &mut Ctx) {
             continue;
         }
         let mut r = Rng::derive(ctx.seed, &[8, case]);
-        let budget = 2 + r.below(13);
-        let t = tree(&mut r, budget, &names);
+        // one case in six uses a large tree (up to ~80 points, nesting up to 8)
+        let budget = if case % 6 == 5 { 20 + r.below(60) } else { 2 + r.below(13) };
+        let mut t = tree(&mut r, budget, &names);
+        if case % 4 == 0 {
+            // make sure float literals occur (they are where equality is most delicate)
+            if let SItem::List(v) = &mut t {
+                let pos = r.below(v.len() + 1);
+                v.insert(pos, SItem::Float(fb(*r.pick(&[1.5f32, 0.1, 3.25, -2.75, 100.0, 1.0, 0.333]))));
+            }
+        }
         let u = match r.below(4) {
             0 | 1 => random_point(&mut r, &t),
             2 => tree(&mut r, 3, &names),
             _ => {
-                // a near miss: an occurrence with one atom changed
+                // a near miss: an occurrence with one atom changed - if it has a float atom, that
+                // float moved by ONE unit in the last place (same printed form, different value)
                 let mut c = random_point(&mut r, &t);
-                let mut k = r.below(c.points());
-                c.replace_point(&mut k, &SItem::Int(99));
+                let mut pts = vec![];
+                c.preorder(&mut pts);
+                let floats: Vec<(usize, u32)> = pts.iter().enumerate().filter_map(|(i, p)| if let SItem::Float(b) = p { Some((i, *b)) } else { None }).collect();
+                if !floats.is_empty() && r.bool() {
+                    let (i, b) = floats[r.below(floats.len())];
+                    let f = fl(b);
+                    let nb = if f.is_finite() && f != 0.0 { if r.bool() { b + 1 } else { b - 1 } } else { fb(1.5) };
+                    let mut k = i;
+                    c.replace_point(&mut k, &SItem::Float(nb));
+                } else {
+                    let mut k = r.below(c.points());
+                    c.replace_point(&mut k, &SItem::Int(99));
+                }
                 c
             }
         };
